@@ -5,6 +5,7 @@ import (
 	"fmt"
 	"os"
 	"path/filepath"
+	"regexp"
 	"sort"
 	"strconv"
 	"strings"
@@ -48,7 +49,12 @@ func loadKnownFindings() []knownFinding {
 
 type baseline struct {
 	Obligations []string `json:"obligations"`
+	Approx      []string `json:"approx,omitempty"` // abstractions already present on the unchanged tree
 }
+
+var lineRe = regexp.MustCompile(` at [\w./-]+:\d+`)
+
+func normApprox(a string) string { return lineRe.ReplaceAllString(a, "") }
 
 func loadBaseline(prop string) *baseline {
 	data, err := os.ReadFile(filepath.Join(verifDir, "baseline", prop+".json"))
@@ -179,6 +185,18 @@ func contractPhase(cr *checkResult, w *symex.World, update bool) {
 	defer os.RemoveAll(scratch)
 	outs := symex.Discharge(obls, symex.SolveOpts{TimeoutMs: timeout, Dir: scratch, Parallel: 12, RequireTwo: cr.tier == "thorough"})
 	known := loadKnownFindings()
+	baseApprox := map[string]bool{}
+	if b := loadBaseline(prop); b != nil {
+		for _, a := range b.Approx {
+			baseApprox[a] = true
+		}
+	}
+	seenApprox := map[string]bool{}
+	for _, o := range outs {
+		for _, a := range o.Obl.Approx {
+			seenApprox[normApprox(a)] = true
+		}
+	}
 	canaryOK := map[string]bool{}
 	canaryOut := map[string]*symex.Outcome{}
 	defer func() {
@@ -231,8 +249,16 @@ func contractPhase(cr *checkResult, w *symex.World, update bool) {
 				cr.known = append(cr.known, fmt.Sprintf("KNOWN-FINDING: property=%s %s: %s (witness: %s)", prop, ob.Name, kf.Symptom, kf.Witness))
 				continue
 			}
-			if len(ob.Approx) > 0 {
-				cr.undecided = append(cr.undecided, fmt.Sprintf("UNDECIDED property=%s obligation=%s reason=path uses abstracted code (%s)", prop, ob.Name, strings.Join(ob.Approx, "; ")))
+			// a failed obligation on a path through code that this tree abstracts *and the unchanged
+			// tree did not* is undecided (the abstraction, not the code, may be why it fails)
+			var newApprox []string
+			for _, a := range ob.Approx {
+				if !baseApprox[normApprox(a)] {
+					newApprox = append(newApprox, a)
+				}
+			}
+			if len(newApprox) > 0 {
+				cr.undecided = append(cr.undecided, fmt.Sprintf("UNDECIDED property=%s obligation=%s reason=path uses code abstracted by the verifier (%s)", prop, ob.Name, strings.Join(newApprox, "; ")))
 				continue
 			}
 			cr.violations = append(cr.violations, writeReplay(cr, o, ""))
@@ -240,7 +266,12 @@ func contractPhase(cr *checkResult, w *symex.World, update bool) {
 	}
 	sort.Strings(names)
 	if update {
-		saveBaselinePart(prop, names)
+		var ap []string
+		for a := range seenApprox {
+			ap = append(ap, a)
+		}
+		sort.Strings(ap)
+		saveBaselinePart(prop, names, ap)
 	}
 	if b := loadBaseline(prop); b != nil {
 		have := map[string]bool{}
@@ -352,7 +383,7 @@ func sanitize(s string) string {
 	return b.String()
 }
 
-func saveBaselinePart(prop string, names []string) {
+func saveBaselinePart(prop string, names []string, approx []string) {
 	os.MkdirAll(filepath.Join(verifDir, "baseline"), 0o755)
 	b := loadBaseline(prop)
 	keep := []string{}
@@ -365,7 +396,7 @@ func saveBaselinePart(prop string, names []string) {
 	}
 	all := append(keep, names...)
 	sort.Strings(all)
-	data, _ := json.MarshalIndent(baseline{Obligations: all}, "", " ")
+	data, _ := json.MarshalIndent(baseline{Obligations: all, Approx: approx}, "", " ")
 	os.WriteFile(filepath.Join(verifDir, "baseline", prop+".json"), data, 0o644)
 }
 
